@@ -190,21 +190,23 @@ theorem C18_create_upload_refines_partial (H : Hashes) (dl : Nat) {s : State} (h
 /-- upload_part: only the creating identity may add a part (`AccessDenied` otherwise); an upload that does not exist — never
     issued, completed, aborted, or an id that is no UUID — is `NoSuchUpload` on both sides (4609ab3; before:
     fs:unknown-upload-code); a part number outside 1..10000 is `InvalidArgument` on both sides (205d9a8; before, numbers below
-    1 were accepted: fs:part-number-not-validated). Partial — excluded only: another key than the upload's
-    (fs:upload-not-bound-to-key) -/
-theorem C18_upload_part_refines_partial (H : Hashes) (dl : Nat) {s : State} (hi : Inv s) {who : Who} {b k : Bytes}
-    {u : UploadRef} {n : Int} {c : Bytes} (hg : UploadPartOk s b k u n) :
+    1 were accepted: fs:part-number-not-validated); an upload exists only under the bucket and key it was created for: under
+    any other it is `NoSuchUpload` on both sides, for the creator and for anybody else (6bf591c; before, the upload id was
+    accepted under any bucket and key: fs:upload-not-bound-to-key). Full: every state satisfying `Inv`, every request -/
+theorem C18_upload_part_refines (H : Hashes) (dl : Nat) {s : State} (hi : Inv s) {who : Who} {b k : Bytes}
+    {u : UploadRef} {n : Int} {c : Bytes} :
     (step H dl s (.uploadPart who b k u n c)).2 = (StoreSpec.step H (abs s) (.uploadPart who b k u n c)).2 ∧
     abs (step H dl s (.uploadPart who b k u n c)).1 = (StoreSpec.step H (abs s) (.uploadPart who b k u n c)).1 ∧
-    Inv (step H dl s (.uploadPart who b k u n c)).1 := uploadPart_refines H dl hi hg
+    Inv (step H dl s (.uploadPart who b k u n c)).1 := uploadPart_refines H dl hi
 
 /-- upload_part_copy: the part becomes the source object, or its `bytes=first-last` slice; ANY other value of
     `x-amz-copy-source-range` — open-ended, suffix form, beyond the end of the source, first after last, a signed or
     overflowing position, any other byte string — is `InvalidArgument` on both sides and changes nothing (18203b6: the
     backend's reader accepts exactly what the store accepts, `copyRange_eq`; before, open-ended ranges and ranges beyond the
     end were accepted: fs:part-copy-range-unchecked); a part number outside 1..10000 is `InvalidArgument` (205d9a8; before
-    it was not checked: fs:part-number-not-validated), an upload that does not exist `NoSuchUpload`, on both sides.
-    Partial — excluded only: another key than the upload's (fs:upload-not-bound-to-key) -/
+    it was not checked: fs:part-number-not-validated), an upload that does not exist — at all, or under this bucket and key
+    (6bf591c; before: fs:upload-not-bound-to-key) — `NoSuchUpload`, on both sides. The predicate only asks for comparable
+    source names and sizes -/
 theorem C18_upload_part_copy_refines_partial (H : Hashes) (dl : Nat) {s : State} (hi : Inv s) {who : Who} {b k : Bytes}
     {u : UploadRef} {n : Int} {sb sk : Bytes} {range : Option Bytes} (hg : UploadPartCopyOk s b k u n sb sk range) :
     (step H dl s (.uploadPartCopy who b k u n sb sk range)).2 =
@@ -217,15 +219,15 @@ theorem C18_upload_part_copy_refines_partial (H : Hashes) (dl : Nat) {s : State}
     order is part of the answer on both sides: the code sorts the parts it read from the directory (764f144; before, it
     returned them in directory-read order and the comparison with the real code had to ignore the order:
     fs:list-parts-unordered); of an upload that does not exist: `NoSuchUpload` on both sides (4609ab3; before, an empty
-    list: fs:list-parts-unknown-upload). Partial — excluded only: another key than the upload's
-    (fs:upload-not-bound-to-key) -/
-theorem C18_list_parts_refines_partial (H : Hashes) (dl : Nat) {s : State} (hi : Inv s) {who : Who} {b k : Bytes}
-    {u : UploadRef} (hg : ListPartsOk s b k u) :
+    list: fs:list-parts-unknown-upload) — also of an upload that exists under another bucket or key (6bf591c; before, its
+    parts were listed: fs:upload-not-bound-to-key). Full: every state satisfying `Inv`, every request -/
+theorem C18_list_parts_refines (H : Hashes) (dl : Nat) {s : State} (hi : Inv s) {who : Who} {b k : Bytes}
+    {u : UploadRef} :
     (step H dl s (.listParts who b k u)).2 = (StoreSpec.step H (abs s) (.listParts who b k u)).2 ∧
     abs (step H dl s (.listParts who b k u)).1 = (StoreSpec.step H (abs s) (.listParts who b k u)).1 ∧
-    Inv (step H dl s (.listParts who b k u)).1 := listParts_refines H dl hi hg
+    Inv (step H dl s (.listParts who b k u)).1 := listParts_refines H dl hi
 
-/-- what the store's answer to list_parts is (so, by the theorem above, the backend's): exactly the parts uploaded so far, each
+/-- what the store's answer to list_parts is (so, by `C18_list_parts_refines`, the backend's): exactly the parts uploaded so far, each
     once with its size, in strictly ascending part-number order (the parts of an upload are keyed by their number:
     `keysNodup`, which `alInsert` maintains) -/
 theorem C18_list_parts_exact (parts : List (Int × Bytes)) (hnd : keysNodup parts) :
@@ -247,7 +249,8 @@ theorem C18_list_parts_exact (parts : List (Int × Bytes)) (hnd : keysNodup part
 
 /-- complete_multipart_upload: the object becomes the concatenation of the listed parts in part order with the upload's
     metadata, the upload is gone; an identity other than the creator gets `AccessDenied` and changes nothing; an upload that
-    does not exist is `NoSuchUpload` on both sides (4609ab3); a complete by
+    does not exist — at all, or under this bucket and key (6bf591c; before: fs:upload-not-bound-to-key) — is `NoSuchUpload`
+    on both sides (4609ab3); a complete by
     the owner that names a part that was never uploaded (`InvalidPart`) or whose parts other than the last are below the
     minimum size (`EntityTooSmall`) is answered alike and changes nothing — the upload stays and can be completed later
     (before the repair the upload was consumed first: fs:failed-complete-consumes-upload, and a missing part was
@@ -283,14 +286,15 @@ theorem C18_complete_concatenates (id : Nat) (l : List (Option Int)) (cnt : Nat)
     exact ⟨numbered cnt cs, completeParts_ok id parts l cnt cs hc hp, by rw [numbered_contents],
       partTooSmall_numbered _ cs cnt (by omega), eraseParts_erased id _ parts⟩
 
-/-- abort_multipart_upload: only by the creator; the upload is gone; of an upload that does not exist: `NoSuchUpload` on both
-    sides. Partial — excluded: another key than the upload's (fs:upload-not-bound-to-key) -/
-theorem C18_abort_refines_partial (H : Hashes) (dl : Nat) {s : State} (hi : Inv s) {who : Who} {b k : Bytes}
-    {u : UploadRef} (hg : AbortOk s b k u) :
+/-- abort_multipart_upload: only by the creator; the upload is gone; of an upload that does not exist — at all, or under this
+    bucket and key (6bf591c; before, an upload could be aborted under any key: fs:upload-not-bound-to-key) — `NoSuchUpload` on
+    both sides and nothing changes. Full: every state satisfying `Inv`, every request -/
+theorem C18_abort_refines (H : Hashes) (dl : Nat) {s : State} (hi : Inv s) {who : Who} {b k : Bytes}
+    {u : UploadRef} :
     (step H dl s (.abortMultipartUpload who b k u)).2 = (StoreSpec.step H (abs s) (.abortMultipartUpload who b k u)).2 ∧
     abs (step H dl s (.abortMultipartUpload who b k u)).1 =
       (StoreSpec.step H (abs s) (.abortMultipartUpload who b k u)).1 ∧
-    Inv (step H dl s (.abortMultipartUpload who b k u)).1 := abort_refines H dl hi hg
+    Inv (step H dl s (.abortMultipartUpload who b k u)).1 := abort_refines H dl hi
 
 /-! ## one request, whole histories -/
 
